@@ -458,3 +458,118 @@ pub fn explore(prog: &Program, id: usize, max_runs: usize, random_runs: usize, s
     }
     (runs, exhausted, bad)
 }
+
+// ---------------------------------------------------------------------------------------------
+// OS-scheduled stress: many threads hammering one key, in barrier-separated rounds
+
+/// One round: the threads run their commands freely (no scheduler); invocation and return events carry a
+/// global sequence number drawn before the call starts / after it has returned.
+pub fn stress_round(prog: &Program, out: &mut dyn Write, id: usize, round: usize) -> bool {
+    use std::sync::atomic::AtomicU64;
+    use std::sync::Barrier;
+    let mut sut = Sut::new(&prog.policy, prog.mem_limit, 1 << 20);
+    let mut events: Vec<Value> = Vec::new();
+    for c in &prog.setup {
+        if c.op == "tick" {
+            sut.timer.now.store(c.delta, Ordering::SeqCst);
+            events.push(json!({"e": "tick", "to": c.delta}));
+            continue;
+        }
+        let fr = frame_of(c, lit(&c.cas));
+        let (dec, resp, panicked) = sut.exchange(&fr.bytes());
+        let mut ev = cmd_event(c, lit(&c.cas), &fr);
+        ev["dec"] = json!(dec);
+        ev["panic"] = json!(panicked);
+        ev["r"] = json!(parse_responses(&resp));
+        ev["present"] = json!([]);
+        ev["bytes"] = json!(0);
+        ev["usage"] = json!("");
+        events.push(ev);
+    }
+    let store = sut.store.clone();
+    let n = prog.clients.len();
+    let seq = Arc::new(AtomicU64::new(0));
+    let log: Arc<Mutex<Vec<(u64, Value)>>> = Arc::new(Mutex::new(Vec::new()));
+    let barrier = Arc::new(Barrier::new(n));
+    let mut handles = Vec::new();
+    for (w, cmds) in prog.clients.iter().enumerate() {
+        let cmds = cmds.clone();
+        let store2 = store.clone();
+        let seq = seq.clone();
+        let log = log.clone();
+        let barrier = barrier.clone();
+        handles.push(std::thread::spawn(move || {
+            let handler = BinaryHandler::new(store2);
+            let mut mine: Vec<(u64, Value)> = Vec::new();
+            barrier.wait();
+            for c in &cmds {
+                let cas = lit(&c.cas);
+                let fr = frame_of(c, cas);
+                let mut ev = cmd_event(c, cas, &fr);
+                ev["e"] = json!("inv");
+                ev["c"] = json!(w + 1);
+                let s0 = seq.fetch_add(1, Ordering::SeqCst);
+                let (r, panicked) = exec_cmd(&handler, 1 << 20, c, cas);
+                let s1 = seq.fetch_add(1, Ordering::SeqCst);
+                ev["seq"] = json!(s0);
+                mine.push((s0, ev));
+                mine.push((s1, json!({"e": "ret", "c": w + 1, "seq": s1, "r": r, "panic": panicked})));
+            }
+            log.lock().unwrap().extend(mine);
+        }));
+    }
+    // watchdog: a round that does not finish is a hang
+    let t0 = std::time::Instant::now();
+    let mut done = false;
+    while t0.elapsed() < Duration::from_secs(10) {
+        if handles.iter().all(|h| h.is_finished()) {
+            done = true;
+            break;
+        }
+        std::thread::sleep(Duration::from_millis(1));
+    }
+    let slack: usize = prog.clients.iter().map(|cl| cl.iter().map(|c| 24 + c.val.len() + 24).max().unwrap_or(0)).sum();
+    writeln!(out, "{}", json!({"e": "crun", "prog": id, "run": round, "name": prog.name, "kind": prog.kind, "init": prog.init,
+        "policy": prog.policy, "L": std::cmp::min(prog.mem_limit, 1 << 30), "slack": slack,
+        "keys": prog.keys.iter().map(|k| hex(k)).collect::<Vec<_>>(), "sched": []})).unwrap();
+    if !done {
+        for e in &events {
+            writeln!(out, "{}", e).unwrap();
+        }
+        writeln!(out, "{}", json!({"e": "final", "outcome": "Hang", "steps": 0, "sched": [], "parked": []})).unwrap();
+        return false;
+    }
+    for h in handles {
+        let _ = h.join();
+    }
+    let mut l = log.lock().unwrap().clone();
+    l.sort_by_key(|x| x.0);
+    for (_, e) in l {
+        events.push(e);
+    }
+    let mut snap = sut.mem.verif_snapshot();
+    snap.sort_by(|a, b| a.0.cmp(&b.0));
+    let bytes: u64 = snap.iter().map(|x| 24 + x.5.len() as u64).sum();
+    let handler = BinaryHandler::new(store.clone());
+    let mut gets = Vec::new();
+    for (i, k) in prog.keys.iter().enumerate() {
+        let c = Cmd { op: "get".into(), q: false, gk: false, key: k.clone(), val: vec![], flags: 0, ttl: 0,
+            cas: CasSpec::Lit(0), opaque: 900 + i as u32, delta: 0, initial: 0 };
+        let fr = frame_of(&c, 0);
+        let mut ev = cmd_event(&c, 0, &fr);
+        let (r, p) = exec_cmd(&handler, 1 << 20, &c, 0);
+        ev["r"] = json!(r);
+        ev["panic"] = json!(p);
+        ev["dec"] = json!("frame");
+        ev["present"] = json!([]);
+        ev["bytes"] = json!(0);
+        ev["usage"] = json!("");
+        gets.push(ev);
+    }
+    events.push(json!({"e": "final", "outcome": "Complete", "steps": 0, "sched": [], "parked": [], "bytes": bytes,
+        "usage": sut.cache.memory_usage().to_string(), "gets": gets, "phys": []}));
+    for e in &events {
+        writeln!(out, "{}", e).unwrap();
+    }
+    true
+}
